@@ -313,8 +313,8 @@ func (ci *index) findByMAC(mac net.HardwareAddr) (c *Persistent, found bool) {
 // findBySubnet finds persistent client that has exactly this subnet as one of
 // its identifiers.
 func (ci *index) findBySubnet(subnet netip.Prefix) (c *Persistent, found bool) {
-	// Subnets are stored masked, see [Persistent.setID].
-	uid, found := ci.subnetToUID.Get(subnet.Masked())
+	// Subnets are stored masked and in the IPv4 form, see [Persistent.setID].
+	uid, found := ci.subnetToUID.Get(unmapPrefix(subnet).Masked())
 	if found {
 		return ci.uidToClient[uid], true
 	}
